@@ -6,7 +6,18 @@ case kinds (see tools/props/c15.py):
   {'k':'text', 's': [code points]}                      Address.from_primitive(str)
   {'k':'bytes','b': hex}                                Address.from_primitive(bytes)
 """
-from _pre import *
+try:
+    from _pre import *
+except Exception:
+    # `import pycardano` itself can fail when the address code is broken (coinselection.py decodes a fixed address at
+    # import time).  Such a tree must still be examined: import only the modules under test, without the package __init__.
+    import os, sys, types
+    for _m in [m for m in sys.modules if m == 'pycardano' or m.startswith('pycardano.') or m == '_pre']:
+        del sys.modules[_m]
+    _pkg = types.ModuleType('pycardano')
+    _pkg.__path__ = [os.path.join(os.environ.get('PYTHONPATH', '/repo').split(':')[0], 'pycardano')]
+    sys.modules['pycardano'] = _pkg
+    from _pre import *
 from pycardano.address import Address, PointerAddress
 from pycardano.hash import ScriptHash, VerificationKeyHash
 from pycardano.network import Network
